@@ -186,6 +186,31 @@ MapStep(st, reg) == [best |-> IF Pmf(st, reg.i) >= Pmf(st, reg.best) THEN reg.i 
 \* in units of 1 / (den * hd); the trapezoid rule is exact on any grid that contains the knots
 TwiceArea(knots) == SumSeq([i \in 1..(Len(knots) - 1) |->
                        (knots[i + 1][1] - knots[i][1]) * (knots[i][2] + knots[i + 1][2])])
-IntegTolDiv == 1024
+IntegTolDiv == 4096
 IntegTol(x) == 2 + Abs(x) \div IntegTolDiv
+\* a density symmetric about its mode: three knots, slopes of equal size and opposite sign.  The maximum
+\* search keeps the mode inside the current window, so the mode ends up in a grid cell narrower than the
+\* resolution r; every other cell is integrated exactly, the cell of the mode loses at most
+\* slope * r^2 / 4 (the triangle cut off by the chord).
+IsPeak(k) == /\ Len(k) = 3 /\ k[1][1] < k[2][1] /\ k[2][1] < k[3][1]
+             /\ k[2][2] > k[1][2] /\ k[2][2] > k[3][2]
+             /\ (k[2][2] - k[1][2]) * (k[3][1] - k[2][1]) = (k[2][2] - k[3][2]) * (k[2][1] - k[1][1])
+OnFirstGridPoint(k) == Len(k) = 3 /\ 2 * k[2][1] = k[1][1] + k[3][1]
+\* slope * r^2 / 4 in units of 1 / s: slope = (dy / hd) / (dx / den), r = rnum / rden
+PeakSlack(k, den, hd, rnum, rden, s) ==
+    (s * (k[2][2] - k[1][2]) * den * rnum * rnum) \div (4 * hd * (k[2][1] - k[1][1]) * rden * rden) + 1
+
+\* ---- machine layer of ln_integrate_exp on an integer lattice (points are lattice indices, F the density):
+\* the halving loop that looks for the maximum; reg = [l, r, mid, first, seen]
+IntInit(lo, hi) == [l |-> lo, r |-> hi, mid |-> -1, first |-> -1, seen |-> {lo, hi}]
+IntCont(reg, res) == (reg.r - reg.l >= res /\ reg.l < reg.r) \/ reg.mid = -1
+IntStep(F(_), reg) ==
+    LET m == (reg.l + reg.r) \div 2
+        goLeft == F(reg.l) > F(reg.r)
+    IN  [l |-> IF goLeft THEN reg.l ELSE m, r |-> IF goLeft THEN m ELSE reg.r, mid |-> m,
+         first |-> IF reg.first = -1 THEN m ELSE reg.first, seen |-> reg.seen \cup {m}]
+\* the extra point in the arm the first step abandoned
+IntArmPoint(lo, hi, reg) == IF reg.mid < reg.first THEN (reg.first + hi) \div 2 ELSE (lo + reg.first) \div 2
+\* twice the trapezoid sum of F over the grid G (a set of lattice points)
+Trap2(F(_), G) == LET g == SortedSeq(G) IN SumSeq([i \in 1..(Len(g) - 1) |-> (g[i + 1] - g[i]) * (F(g[i]) + F(g[i + 1]))])
 =============================================================================
